@@ -14,14 +14,33 @@ BOUND = ("networks with <= 6(7) variables (exhaustive 1-variable, sampled 2-vari
          "attractor_candidates_limit in {0,1,2,3,default}: all structural and cache invariants after every call, return-value contracts of every True/False; "
          "(resume) one strategy interrupted 1-3 times by limits or limit errors, then repeated with relaxed limits and compared with an uninterrupted run "
          "(bfs, dfs, target: identical diagrams; minimal-space, attractor-seed: True + postcondition; attractor query: identical seeds); (fault) the k-th clingo solve() call "
-         "(k in 1..12) raises inside a seeded history of <= 3 calls: invariants after the failure, then full expansion compared with a fresh one")
+         "(k in 1..12) raises inside a seeded history of <= 3 calls: invariants after the failure, then full expansion compared with a fresh one; (shallower) networks "
+         "with diagrams of depth >= 2 (unions of bistable modules, nested switches, latch DAGs): a partial expansion followed by a level-limited bfs (from the root or a "
+         "child) whose limit 0..2 is shallower than what is already expanded, as a 'history' case (a True return is held to its contract)")
 RULE = "non-trivial = at least one call stopped early (returned False or raised a limit error)"
 CASE_TIMEOUT = 60.0
 
 DEFAULTS = {"max_motifs_per_node": 100_000, "attractor_candidates_limit": 100_000, "retained_set_optimization_threshold": 1_000}
 
 
+def shape_cases(seed, tier):
+    fixed = families.shallower_histories()
+    for k, (name, bnet) in enumerate(families.deep_nets(seed, tier)):
+        names = families.variables(bnet)
+        if name in families.DEEP:
+            picks = fixed
+        else:
+            rng = random.Random(f"{seed}-{name}-c15-shallow")
+            picks = [fixed[k % len(fixed)], fixed[(k * 7 + 3) % len(fixed)], families.random_shallower_history(rng, names)]
+        for pre, final in picks:
+            yield {"kind": "history", "net": name, "bnet": bnet, "config": {}, "history": pre + [final]}
+
+
 def cases(seed, tier):
+    yield from families.interleave((shape_cases(seed, tier), 1), (general_cases(seed, tier), 4))
+
+
+def general_cases(seed, tier):
     # D7 shape: size_limit == len(sd) on a fully expanded diagram; D8 shape: limit 0
     for name in ("D4", "doc_abc", "multipath"):
         b = families.HAND[name]
@@ -47,6 +66,9 @@ def cases(seed, tier):
                 yield {"kind": "resume", "net": name, "bnet": bnet, "config": cfg, "op": op, "limits": [rng.randint(0, 6) for _ in range(rng.randint(1, 3))],
                        "target": families.random_space(rng, names, 0.4) or {names[0]: 1}}
         yield {"kind": "full_then_limit", "net": name, "bnet": bnet, "op": random.Random(f"{seed}-{name}").choice(["bfs", "dfs", "min", "aseeds", "target"])}
+        rng = random.Random(f"{seed}-{name}-c15-shallow")
+        pre, final = families.random_shallower_history(rng, names)
+        yield {"kind": "history", "net": name, "bnet": bnet, "config": {}, "history": pre + [final]}
         rng = random.Random(f"{seed}-{name}-c15-fault")
         for _ in range(2 if tier == "quick" else 5):
             hist = families.random_history(rng.randrange(1 << 30), names, rng.randint(1, 3), families.PLAIN_OPS + ["seeds", "cands", "skip", "skip_remaining", "min_skip"])
